@@ -1,5 +1,11 @@
-(* Model of qvm/using.py (PrintUsingFormatter): the format-string scanner, the
-   field renderer and its use of Python's format() mini-language. *)
+(* Model of qvm/using.py (PrintUsingFormatter): the format-string scanner
+   (parse_format = parse_format_string + parse_numeric_format_string), the
+   field renderer (render_num = format_number, render = format) and the pieces
+   of Python's format() mini-language it uses ('{:}', '{:,}', '{:.Nf}',
+   '{:,.Nf}' on int and float).  Faithful to the code including its defects
+   (DESIGN.md D16, D24): compared on every run of ./check C19 with the real
+   class - scanner result, text and host exception (tools/props/c19.py).
+   The only addition is the ghost field o_frac, which the renderer never reads. *)
 From Coq Require Import ZArith List Bool Lia.
 From QV Require Import Sx Strs Fl Dec.
 Import ListNotations.
